@@ -136,17 +136,21 @@ func c10Scenarios(tier string) []Scenario {
 				Calls: []CallSpec{{ID: 0, Match: MatchGood, CancelAt: -1, After: -1}, {ID: 0, Match: MatchGood, CancelAt: -1, After: 0}},
 				Dgs:   []DgSpec{{At: 1, Kind: DgGood}, {At: at, Kind: DgBad}, {At: at + 1, Kind: DgGood}}}, "reuse")
 		}
-		// (5) eight callers, bound 1
+		// (5) many callers: 4 (quick) / 5 (thorough) concurrent callers, two of them colliding
 		{
+			nc := 4
+			if thorough {
+				nc = 5
+			}
 			var calls []CallSpec
 			var dgs []DgSpec
-			for i := 0; i < 8; i++ {
-				calls = append(calls, CallSpec{ID: i % 6, Match: MatchNil, CancelAt: -1, After: -1})
+			for i := 0; i < nc; i++ {
+				calls = append(calls, CallSpec{ID: i % (nc - 1), Match: MatchNil, CancelAt: -1, After: -1})
 			}
-			for i := 0; i < 6; i++ {
+			for i := 0; i < nc-1; i++ {
 				dgs = append(dgs, DgSpec{At: 1, Kind: DgGood, ID: i})
 			}
-			add(&ClientScenario{V6: v6, T: T, Tries: 1, BufCap: -1, CloseAt: -1, Bound: 1, Calls: calls, Dgs: dgs}, "eight-callers")
+			add(&ClientScenario{V6: v6, T: T, Tries: 1, BufCap: -1, CloseAt: -1, Bound: 1, Calls: calls, Dgs: dgs}, "many-callers")
 		}
 	}
 	return out
